@@ -3377,3 +3377,8 @@ pub(crate) mod tests {
     }
 
 }
+
+// Verification hook (add-only): compiled only under `cargo kani` or `--cfg heathcliff_verif`.
+#[cfg(any(kani, heathcliff_verif))]
+#[path = "/verif/incrate/evaluator_v.rs"]
+pub(crate) mod verif_v;
